@@ -71,7 +71,7 @@ def boundary_case():
 
 
 def gen(rng, tier):
-    total = 700 if tier == "quick" else 15000
+    total = 500 if tier == "quick" else 15000
     yield boundary_case()
     for _ in range(total):
         yield gen_history(rng, tier)
